@@ -52,6 +52,34 @@ var props = map[string]propMeta{
 		Probes:      []string{"resend_carried_dup", "retransmitted"},
 		QuickS:      20, ThoroughS: 300,
 	},
+	"C04": {
+		Level: "exploration",
+		Rule: "seeded runs with 1-8 inbound messages (mostly exactly-once) from the reference broker, which retransmits PUBLISH (DUP) and PUBREL on reconnect; breaks after client acknowledgements were written but before the broker consumed them; oracles: no return of a message while its marker is stored, every broker-side handshake completes in the quiescence phase." + distinctRule + " non-trivial = a fault fired and the broker retransmitted an exactly-once PUBLISH",
+		Assumptions: flowAssumptions,
+		Probes:      []string{"q2_retransmission_seen", "q2_duplicate_completed", "unread_input_lost"},
+		QuickS:      20, ThoroughS: 300,
+	},
+	"C06": {
+		Level: "exploration",
+		Rule: "seeded well-formed inbound streams (all packet types a broker sends, topics up to the read buffer, payloads 0, around the read buffer +-8, 1-3 buffers; read buffer 16 B..128 KiB) cut into reads by the tape (1-byte reads, coalescing, progress-making deadline expiries at drawn cuts), BigMessage read or skipped; no other fault, so any ReadSlices error is a violation; oracle: returned (topic, message) sequence equals the sent PUBLISH sequence byte for byte." + distinctRule + " non-trivial = a progress-making expiry or a short read fired and a message beyond the read buffer was received",
+		Assumptions: flowAssumptions,
+		Probes:      []string{"progress_making_expiry", "big_message", "big_message_skipped", "short_read"},
+		QuickS:      20, ThoroughS: 300,
+	},
+	"C07": {
+		Level: "exploration",
+		Rule: "seeded mixed inbound streams with the application pausing after any return (harness park point between a ReadSlices return and the next invocation), BigMessage read or skipped, failing acknowledgement writes, concurrent outbound requests; oracle on the wire log: a PUBACK/PUBREC is written only after ReadSlices was invoked again, carries a returned message's identifier, and every returned message is acknowledged by the end of the quiescence phase." + distinctRule + " non-trivial = a fault fired and an acknowledgement was sent on a later connection than the delivery",
+		Assumptions: flowAssumptions,
+		Probes:      []string{"ack_after_ownership", "ack_on_new_connection"},
+		QuickS:      20, ThoroughS: 300,
+	},
+	"C10": {
+		Level: "exploration",
+		Rule: "seeded runs with inbound QoS 1/2 traffic (the reader owes PUBACK, PUBREC, PUBCOMP, PUBREL) plus writer tasks of every request type; write failures of other goroutines at drawn points, read errors, EOF, expiries, failed dials and handshakes; oracle: bounded liveness (the client serves again within L simulated time and S steps once faults stop) and the documented ReadBackoff rules." + distinctRule + " non-trivial = a write failed or timed out",
+		Assumptions: flowAssumptions,
+		Probes:      []string{"write_break", "short_write_timeout", "backoff_checked", "read_expiry", "dial_fail"},
+		QuickS:      20, ThoroughS: 300,
+	},
 	"C08": {
 		Level: "exploration",
 		Rule: "seeded runs with concurrent Publish/Subscribe/Unsubscribe/Ping/persisted publishes plus the reader's own writes and resends; every Write may be split at a drawn byte count with a deadline expiry or a hard error, on pipe-like and TCP-like connections; oracle: each connection's bytes parse (strict independent codec) as whole packets that equal their request, success implies a complete packet." + distinctRule + " non-trivial = a write was split (timeout or hard error)",
